@@ -3,7 +3,7 @@
    the prefix of MockIncludeDirective.run with a file-system trace); regenerated facts about the
    source: Gen/RawSites.v; proofs: Nest/RawProofs.v. *)
 From Coq Require Import List NArith Bool.
-From MV Require Import Base.PyStr Base.Res Nest.Raw Nest.RawProofs Gen.RawSites.
+From MV Require Import Base.PyStr Base.Res Nest.Raw Nest.RawProofs Gen.RawSites Gen.RawSrc Nest.RawSrcProofs.
 Import ListNotations.
 Open Scope N_scope.
 
@@ -90,6 +90,55 @@ Proof.
   - apply include_path_forms.
 Qed.
 Print Assumptions C20_include_reads_when_enabled.
+
+(* ---- the same, for the code regenerated from the source on this run (Gen/RawSrc.v) ----
+   post_process_src is the raw_enabled block of Parser.parse translated statement by statement
+   (guard, for loop over document.traverse(nodes.raw), reporter.warning, node.parent.replace);
+   include_run_src is MockIncludeDirective.run from its first statement to the
+   nested_render_text call (file_insertion test, standard-include branch, path resolution,
+   record_dependencies, read, slicing, :literal:/:code: returns, circular-inclusion test). *)
+Theorem C20_src_is_model :
+  (forall raw_enabled doc, post_process_src raw_enabled doc = post_process raw_enabled doc)
+  /\ (forall st opts name arg resolve resolve_std fs slice circular,
+        include_run_src st opts name arg resolve resolve_std fs slice circular
+        = include_run_head st opts name arg resolve resolve_std fs slice circular).
+Proof. split; [exact post_process_src_model | exact include_run_src_head]. Qed.
+Print Assumptions C20_src_is_model.
+
+Theorem C20_no_raw_survives_src : forall doc : dnode,
+  has_raw (fst (post_process_src false doc)) = false
+  /\ Rstrip doc (fst (post_process_src false doc))
+  /\ snd (post_process_src false doc) = count_raw doc
+  /\ post_process_src true doc = (doc, O).
+Proof.
+  intro doc. rewrite !post_process_src_model. repeat split.
+  - apply post_process_no_raw.
+  - apply rest_untouched.
+Qed.
+Print Assumptions C20_no_raw_survives_src.
+
+(* whatever the argument spelling, the options, the file system: with file insertion disabled
+   the translated run() returns the level-2 error with an empty file-system trace; with it
+   enabled the file named by the argument is read *)
+Theorem C20_include_refuses_before_io_src :
+  (forall st opts name arg resolve resolve_std fs slice circular,
+      file_insertion_enabled st = false ->
+      include_run_src st opts name arg resolve resolve_std fs slice circular = (HError 2 name, []))
+  /\ (forall st opts name arg resolve resolve_std fs slice circular,
+        file_insertion_enabled st = true ->
+        In (FsRead (include_path arg resolve resolve_std))
+           (snd (include_run_src st opts name arg resolve resolve_std fs slice circular))).
+Proof.
+  split; intros st opts name arg resolve resolve_std fs slice circular H;
+    rewrite include_run_src_head; unfold include_run_head.
+  - rewrite (include_refuses st name arg resolve resolve_std fs H). reflexivity.
+  - pose proof (include_reads_when_enabled st name arg resolve resolve_std fs H) as Hr.
+    destruct (include_run_prefix st name arg resolve resolve_std fs) as [[text|l m] tr]; cbn [snd] in *.
+    + destruct (slice text); [|exact Hr]. destruct (io_literal opts); [exact Hr|].
+      destruct (io_code opts); [exact Hr|]. destruct (circular _); exact Hr.
+    + exact Hr.
+Qed.
+Print Assumptions C20_include_refuses_before_io_src.
 
 (* non-vacuity: a tree with html and latex raw nodes at two depths *)
 Example C20_example :
